@@ -16,7 +16,9 @@ Record world := {
   w_last  : N;          (* Uploader.lastIndex *)
   w_db    : list N;     (* committed changes, oldest first *)
   w_rid   : option N;   (* storage: id of the current object, if it is the decimal form of a number *)
-  w_rdata : content     (* storage: content of the current object *)
+  w_rdata : content;    (* storage: content of the current object *)
+  w_silent  : N;        (* changes applied to the database that did NOT move DBAppliedIndex (see EvSilent) *)
+  w_rsilent : N         (* how many of those the stored object contains *)
 }.
 
 (* what can happen around one round *)
@@ -39,7 +41,8 @@ Inductive outcome :=
 Definition last_index (db : list N) : N := last db 0.
 
 Definition set_db (w : world) (db : list N) : world :=
-  {| w_last := w_last w; w_db := db; w_rid := w_rid w; w_rdata := w_rdata w |}.
+  {| w_last := w_last w; w_db := db; w_rid := w_rid w; w_rdata := w_rdata w;
+     w_silent := w_silent w; w_rsilent := w_rsilent w |}.
 
 Definition opt_N_eqb (a : option N) (b : N) : bool :=
   match a with Some x => x =? b | None => false end.
@@ -67,14 +70,21 @@ Definition round (w : world) (e : env) : world * outcome * list call :=
         else
           let calls := [CLast; CProvide] ++ (if first then [CCurID] else []) ++ [CUpload li data] in
           if e_up_fail e then (w1, OUploadFailed li data, calls)
-          else ({| w_last := li; w_db := w_db w1; w_rid := Some li; w_rdata := data |}, OUploaded li data, calls).
+          else ({| w_last := li; w_db := w_db w1; w_rid := Some li; w_rdata := data;
+                   w_silent := w_silent w; w_rsilent := w_silent w |}, OUploaded li data, calls).
 
-Inductive event := EvWrite (i : N) | EvRound (e : env).
+(* EvSilent: the database content changes but fsmApply does not count the log entry as a
+   mutation (command_processor.go: an EXECUTE_QUERY entry whose responses are all query
+   results), so DBAppliedIndex stays where it was.  Reproduced on the real store by the
+   driver's "store-unflagged" scenario; see known_findings.d/C37.json. *)
+Inductive event := EvWrite (i : N) | EvRound (e : env) | EvSilent.
 
 Definition step (w : world) (ev : event) : world :=
   match ev with
   | EvWrite i => set_db w (w_db w ++ [i])
   | EvRound e => fst (fst (round w e))
+  | EvSilent => {| w_last := w_last w; w_db := w_db w; w_rid := w_rid w; w_rdata := w_rdata w;
+                   w_silent := w_silent w + 1; w_rsilent := w_rsilent w |}
   end.
 
 Definition run (w : world) (evs : list event) : world := fold_left step evs w.
@@ -123,6 +133,7 @@ Fixpoint agree (w : world) (evs : list event) (obs : list robs) : bool :=
   match evs with
   | [] => match obs with [] => true | _ => false end
   | EvWrite i :: r => agree (step w (EvWrite i)) r obs
+  | EvSilent :: r => agree (step w EvSilent) r obs
   | EvRound e :: r =>
       match obs with
       | [] => false
